@@ -251,7 +251,7 @@ def call_method(ex, m, o, args, kwargs, p, node, fr):
             if cell.get('items') is not None: q.write(o.oid, 'items', cell['items'] + [args[0]])
             else:
                 q.write(o.oid, 'len', cell['len'] + 1)
-                if 'ghost' in cell: q.write(o.oid, 'ghost', S.seq_append(cell['ghost'], args[0], q))
+                q.write(o.oid, 'log', list(cell.get('log', [])) + [args[0]])
             return [(q, NONE)]
         if m == 'copy':
             q = p.fork(); return [(q, VRef(q.alloc(dict(cell)), 'list'))]
